@@ -32,6 +32,11 @@ def mp():
     return mpmath
 
 
+# contracts whose kernels are applied to *named* view components (fresh variables with defining hypotheses) instead of
+# compound fractions: keeps the boost matrices small (DESIGN 2.1, kernel contracts at parameter level)
+ABSTRACT_VIEW_OPS = {"boost_beta3", "boost_p4"}
+
+
 # ------------------------------------------------------------------------------------------- obligations
 class Obl:
     def __init__(self, oid, kind, formula=None, status=None, by=None, t=0.0, note=None, model=None, splits=()):
@@ -106,6 +111,7 @@ class VariantJob:
     # ---- one case
     def setup_case(self, case_name, kinds, tau_cases):
         ctx = S.newctx()
+        ctx.abstract_views = self.modname in ABSTRACT_VIEW_OPS
         scal = {}
         sargs = []
         for n in self.snames:
@@ -169,6 +175,13 @@ class VariantJob:
 
     def run_case(self, label, cname, kinds, tc, res):
         ctx, scal, sargs, coords, views = self.setup_case(cname, kinds, tc)
+        rng = random.Random(hash((SEED, self.base_id, label)) & 0xFFFFFFFF)
+        if not self.sample_points(ctx, rng, 1, tries=60):
+            st, _ = PR.satisfiable(ctx, list(ctx.pre), 10000)
+            if st == "unsat":
+                # this sign case admits no operand in the operation's domain (e.g. a spacelike booster)
+                res.setdefault("vacuous_cases", []).append(label)
+                return "proved"
         flat_views = [c for vw in views for c in vw]
         flat_coords = [c for cs in coords for c in cs]
         ref = self.cfn(LIB, *sargs, *flat_views)
@@ -189,9 +202,22 @@ class VariantJob:
             if len(got_t) != sum(ncoords([c]) for c in oc):
                 goals.append(("arity", FALSE))
             else:
-                gv = view(oc, list(got_t))
-                for nm, a, b in zip("xyzt", gv, refv):
+                tau_out = len(oc) >= 3 and oc[2] is TemporalTau
+                gv = view(oc[:2] if tau_out else oc, list(got_t)[:3] if tau_out else list(got_t))
+                for nm, a, b in zip("xyz" if tau_out else "xyzt", gv, refv):
                     goals.append((f"view.{nm}", A.of(a).rel("==", A.of(b))))
+                if tau_out:
+                    # t-view(result) = sqrt(max(Q,0)), Q = sgn(tau')tau'^2 + |p'|^2.  The exact time T_ref is > 0 (precondition
+                    # "result representable"), so t-view(result) == T_ref  iff  Q == T_ref^2.
+                    from .views import vkey
+                    cache = getattr(ctx, "viewcache", {}) or {}
+                    tp = A.of(got_t[3])
+                    k4 = ("te", vkey(gv[0]), vkey(gv[1]), vkey(gv[2]), vkey(tp))
+                    if k4 in cache:
+                        goals.append(("view.t", A.of(cache[k4]).rel("==", A.of(refv[3]))))
+                    else:
+                        Q = LIB.copysign(tp * tp, tp) + (gv[0] * gv[0] + gv[1] * gv[1] + gv[2] * gv[2])
+                        goals.append(("view.t", Q.rel("==", A.of(refv[3]) * A.of(refv[3]))))
         suffix = f"{{{label}}}" if label else ""
         worst = "proved"
         # ---- sample points: vacuity witness, refuter, engine cross-check
@@ -250,10 +276,10 @@ class VariantJob:
         return worst
 
     # ---- numeric side
-    def sample_points(self, ctx, rng, n):
+    def sample_points(self, ctx, rng, n, tries=400):
         out = []
-        tries = 0
-        while len(out) < n and tries < 400:
+        maxtries, tries = tries, 0
+        while len(out) < n and tries < maxtries:
             tries += 1
             base = sample_inputs(ctx, rng)
             self.fixup(ctx, base, rng, tries)
@@ -406,6 +432,100 @@ def congruence(ctx):
     return merged
 
 
+class KernelJob:
+    """proves a kernel contract of modular.KERNELS on plain variables (parameter level), with the kernels' real bodies"""
+
+    def __init__(self, key, prop="C01"):
+        self.key, self.prop = tuple(key), prop
+        self.base_id = f"{prop}/{key[0]}.{key[1]}.kernel[cartesian_tau]"
+
+    def run(self):
+        from . import modular
+        from .poly import Poly
+        modular.ensure_installed()
+        ftau, ft = modular.KERNEL_ORIG[self.key]
+        res = dict(id=self.base_id, pk=self.key[0], mod=self.key[1], sig="kernel", obligations=[], status=None, t=0.0,
+                   cases=0, refuter_points=0, engine_crosschecks=0)
+        t0 = time.time()
+        worst = "proved"
+        for tc in ("nonneg", "neg"):
+            res["cases"] += 1
+            ctx = S.newctx()
+            x1, y1, z1, tau = mk_operand("1", [AzimuthalXY, LongitudinalZ, TemporalTau], tau_case=tc)
+            if self.key[1] == "boost_beta3":
+                params = [mk_scalar(n) for n in ("betax", "betay", "betaz")]
+            else:
+                x2, y2, z2 = [mk_scalar(n) for n in ("x2", "y2", "z2")]
+                mass = mk_scalar("mass", "pos")
+                energy = LIB.sqrt(mass * mass + x2 * x2 + y2 * y2 + z2 * z2)
+                params = [energy, mass, mass * mass, x2, y2, z2]
+            for desc, f in modular.kernel_requires(self.key, params):
+                ctx.hyp(f, pre=True)
+            T = LIB.sqrt(LIB.maximum(LIB.copysign(tau * tau, tau) + (x1 * x1 + y1 * y1 + z1 * z1), 0))
+            rt = ft(LIB, x1, y1, z1, T, *params)
+            ctx.hyp(A.of(rt[3]).rel(">"), pre=True)
+            rtau = ftau(LIB, x1, y1, z1, tau, *params)
+            goals = [(f"spatial.{n}", A.of(rtau[i]).rel("==", A.of(rt[i]))) for i, n in enumerate("xyz")]
+            goals.append(("tau-kept", A.of(rtau[3]).rel("==", tau)))
+            tp = A.of(rtau[3])
+            # t-view(result) = sqrt(max(Q, 0)) with Q = sgn(tau')tau'^2 + |p'|^2; with t' > 0 (precondition) it equals t' iff Q == t'^2
+            Q = LIB.copysign(tp * tp, tp) + (A.of(rtau[0]) ** 2 + A.of(rtau[1]) ** 2 + A.of(rtau[2]) ** 2)
+            goals.append(("interval", Q.rel("==", A.of(rt[3]) * A.of(rt[3]))))
+            suffix = f"{{tau:{tc}}}"
+            # numeric refuter with the real kernels
+            rng = random.Random(hash((SEED, self.base_id, tc)) & 0xFFFFFFFF)
+            npts = 0
+            for _ in range(200):
+                if npts >= NPOINTS:
+                    break
+                base = sample_inputs(ctx, rng)
+                for d in ctx.inputs:
+                    if "scalar" in d and d["scalar"].startswith("beta"):
+                        base[d["vars"]] = mp().mpf(rng.uniform(-0.55, 0.55))
+                env = EnvGet(ctx, base)
+                try:
+                    if not all(f_eval(f, env) for f in ctx.pre):
+                        continue
+                    args = [S.to_num(v, env) for v in (x1, y1, z1)]
+                    pv = [S.to_num(A.of(p), env) for p in params]
+                    a = NL.run_real(ftau, args + [S.to_num(tau, env)] + pv)
+                    b = NL.run_real(ft, args + [S.to_num(T, env)] + pv)
+                except (NL.OutsideDomain, ZeroDivisionError, KeyError, ValueError):
+                    continue
+                npts += 1
+                res["refuter_points"] += 1
+                Tn = num_view([AzimuthalXY, LongitudinalZ, TemporalTau], list(a))[3]
+                if not (all(numeric_equal(a[i], b[i]) for i in range(3)) and numeric_equal(Tn, b[3]) and numeric_equal(a[3], S.to_num(tau, env))):
+                    res["obligations"].append(dict(id=f"{self.base_id}{suffix}/refuter", kind="refuter", status="refuted", t=0,
+                                                   by="numeric evaluation of the real kernels (mpmath 60 digits)",
+                                                   counterexample=dict(function=f"{ftau.__module__}:{ftau.__name__}", args=[_s(x) for x in args + [S.to_num(tau, env)] + pv],
+                                                                       got=_s(list(a)) + [_s(Tn)], expected=_s(list(b)))))
+                    worst = _worse(worst, "refuted")
+                    break
+            seen = set()
+            for desc, f in ctx.defs:
+                k = repr(f)
+                if k in seen:
+                    continue
+                seen.add(k)
+                r = PR.prove(ctx, f)
+                res["obligations"].append(dict(id=f"{self.base_id}{suffix}/defined.{len(seen)}", kind="definedness", status=r["status"],
+                                               by=r["by"], t=round(r["t"], 4), note=desc))
+                worst = _worse(worst, r["status"] if r["status"] != "refuted" else "unknown")
+            lemmas = []
+            for nm, g in goals:
+                r = PR.radical_tactic(ctx, g, extra=lemmas, timeout_ms=5000) or PR.prove(ctx, g, extra=lemmas)
+                st = r["status"] if r["status"] != "refuted" else "unknown"
+                res["obligations"].append(dict(id=f"{self.base_id}{suffix}/{nm}", kind="value", status=st, by=r["by"], t=round(r["t"], 4)))
+                if st == "proved":
+                    lemmas.append(g)
+                worst = _worse(worst, st)
+        res["status"] = worst
+        res["t"] = round(time.time() - t0, 3)
+        res["stats"] = dict(PR.STATS)
+        return res
+
+
 def _s(x):
     if isinstance(x, (list, tuple)):
         return [_s(y) for y in x]
@@ -429,7 +549,9 @@ def run_variant_job(args):
     try:
         from . import modular
         modular.ensure_installed()
+        if sig == "kernel":
+            return KernelJob((pk, modname), prop).run()
         return VariantJob(pk, modname, sig, prop).run()
     except Exception as e:
-        return dict(id=f"{prop}/{pk}.{modname}[{sig_str(sig)}]", pk=pk, mod=modname, sig=sig_str(sig), status="error",
+        return dict(id=f"{prop}/{pk}.{modname}[{sig if isinstance(sig, str) else sig_str(sig)}]", pk=pk, mod=modname, sig=str(sig), status="error",
                     obligations=[], err=f"{type(e).__name__}: {e}", tb=traceback.format_exc()[-1500:], t=0)
